@@ -2,6 +2,8 @@
 
 package pcs
 
+import "time"
+
 // VerifQE exposes the package-private QE report certification data of a
 // decoded ECDSA-P256 quote signature (read-only accessor for the C16 check).
 func (qs *QuoteSignatureECDSA_P256) VerifQE() *CertificationData_QEReport {
@@ -11,4 +13,27 @@ func (qs *QuoteSignatureECDSA_P256) VerifQE() *CertificationData_QEReport {
 // VerifReportBody exposes the package-private report body of a decoded quote.
 func (q *Quote) VerifReportBody() ReportBody {
 	return q.reportBody
+}
+
+// VerifTCBInfoSemantics runs the package-private semantic checks that
+// SignedTCBInfo.open / TCBBundle.Verify perform on a TCB info body AFTER the
+// signature has been verified (validate, validateFMSPC, validateTCBLevel), so
+// that a harness can exercise them on bodies that are not signed by Intel.
+func VerifTCBInfoSemantics(ti *TCBInfo, teeType TeeType, ts time.Time, policy *QuotePolicy, fmspc []byte, sgxCompSvn [16]int32, tdxCompSvn *[16]byte, pcesvn uint16) error {
+	if err := ti.validate(teeType, ts, policy); err != nil {
+		return err
+	}
+	if err := ti.validateFMSPC(fmspc); err != nil {
+		return err
+	}
+	return ti.validateTCBLevel(sgxCompSvn, tdxCompSvn, pcesvn)
+}
+
+// VerifQEIdentitySemantics runs the package-private semantic checks on a QE
+// identity body (validate, verify against a QE report).
+func VerifQEIdentitySemantics(qe *QEIdentity, teeType TeeType, ts time.Time, policy *QuotePolicy, report *SgxReport) error {
+	if err := qe.validate(teeType, ts, policy); err != nil {
+		return err
+	}
+	return qe.verify(report)
 }
